@@ -12,7 +12,12 @@
      c15_lst <P|U> <bits per element> <bytes per element> <lb>,<ub|->,<ext> <hex | @file>
          P = PerFragment (the C), U = PreallocUb
          -> OK <units> <bits left> peak=<n> maxreq=<n> allocs=<n> [held=<n> cap=<n>]
-          | NONE peak=<n> maxreq=<n> allocs=<n> [held=<n> cap=<n>] *)
+          | NONE peak=<n> maxreq=<n> allocs=<n> [held=<n> cap=<n>]
+   coq/Rt/HeapOer.v (allocation-metered OER decoder of nested SEQUENCE OF / SET OF):
+     c15_oll <G|U|N> <type> <hex | @file>
+         G = PerElement guard (the C), U = UpFront test, N = no guard
+         type ::= L(<type>) | Z<bytes> (zero-width leaf, e.g. Z4 = NULL) | F<octets>.<bytes> (fixed-width leaf, F1.4 = BOOLEAN)
+         -> <OK|MORE|FAIL|FUEL> <octets consumed> peak=<n> maxreq=<n> allocs=<n> *)
 open Model
 open Drvlib
 
@@ -46,6 +51,31 @@ let scon_of s =
   | [lb; ub; ext] -> SCon (cz_of_string lb, (if ub = "-" then None else Some (cz_of_string ub)), ext = "1")
   | _ -> failwith "scon"
 
+let bytes_of_input (src : string) =
+  let data =
+    if String.length src > 0 && src.[0] = '@' then begin
+      let ic = open_in_bin (String.sub src 1 (String.length src - 1)) in
+      let n = in_channel_length ic in
+      let b = really_input_string ic n in
+      close_in ic; b
+    end else if src = "-" then ""
+    else String.init (String.length src / 2) (fun i -> Char.chr (int_of_string ("0x" ^ String.sub src (2 * i) 2))) in
+  let acc = ref [] in
+  for i = String.length data - 1 downto 0 do acc := cz_of_string (string_of_int (Char.code data.[i])) :: !acc done;
+  !acc
+
+let rec lty_of (s : string) =
+  let n = String.length s in
+  if n >= 3 && s.[0] = 'L' && s.[1] = '(' && s.[n - 1] = ')' then LList (lty_of (String.sub s 2 (n - 3)))
+  else if n >= 2 && s.[0] = 'Z' then LLeaf (nat_of_int 0, cz_of_string (String.sub s 1 (n - 1)))
+  else if n >= 4 && s.[0] = 'F' then
+    (match String.split_on_char '.' (String.sub s 1 (n - 1)) with
+     | [w; e] -> LLeaf (nat_of_int (int_of_string w), cz_of_string e)
+     | _ -> failwith "lty")
+  else failwith "lty"
+
+let gpol_of s = if s = "U" then UpFront else if s = "N" then NoGuard else PerElement
+
 let pol_of s = if s = "U" then PreallocUb else PerFragment
 let meter_s m = Printf.sprintf "peak=%s maxreq=%s allocs=%s" (string_of_cz m.m_peak) (string_of_cz m.m_maxreq) (string_of_cz m.m_allocs)
 let res_s = function
@@ -75,4 +105,8 @@ let dispatch cmd args =
   | "c15_lst", [pol; ub; esz; sc; src] ->
       let (res, (m, l)) = c15_lst (pol_of pol) (nat_of_int (int_of_string ub)) (cz_of_string esz) (scon_of sc) (bits_of_input src) in
       Some (Printf.sprintf "%s %s held=%s cap=%s" (res_s res) (meter_s m) (string_of_cz l.l_count) (string_of_cz l.l_cap))
+  | "c15_oll", [g; t; src] ->
+      let r = c15_oll (gpol_of g) (lty_of t) (bytes_of_input src) in
+      let rc = match r.r_rc with ROk -> "OK" | RMore -> "MORE" | RFail -> "FAIL" | RFuel -> "FUEL" in
+      Some (Printf.sprintf "%s %s %s" rc (string_of_cz r.r_used) (meter_s r.r_m))
   | _ -> None
